@@ -110,6 +110,18 @@ def parse_table(out):
     return rows
 
 
+def table_csizes(out):
+    vals = []
+    for line in out.decode("utf-8").split("\n"):
+        if not line.strip():
+            continue
+        cells = [ANSI.sub("", c) for c in line.split(CELL_SEP)]
+        if len(cells) < 10:
+            return None
+        vals.append(cells[4].strip())
+    return vals
+
+
 def parse_tree(out):
     lines = out.decode("utf-8").split("\n")
     if not lines or lines[0] != ".":
@@ -296,6 +308,13 @@ def observe(c, rnd, n_obs):
                         exp = [(bytes.fromhex(o["name"]).decode(), kind_char(o["kind"]), o["clen"] if o["kind"] == 0 else 0) for o in visible]
                         if rows != exp:
                             msgs.append("jsonl list differs from the library's entries (name, kind, size): %s vs %s" % (rows[:4], exp[:4]))
+                        # C18: `size` is the compressed size (sum of the data chunk payloads)
+                        try:
+                            js = [json.loads(l).get("size") for l in r["out"].decode("utf-8").split("\n") if l]
+                        except Exception:
+                            js = None
+                        if js is not None and js != [o["csize"] for o in visible]:
+                            msgs.append("jsonl list: size %s differs from the library's compressed sizes %s" % (js[:6], [o["csize"] for o in visible][:6]))
                     elif view in ("table", "long"):
                         rows = parse_table(r["out"])
                         if rows is None:
@@ -307,6 +326,11 @@ def observe(c, rnd, n_obs):
                                 msgs.append("table list differs from the library's entries (kind, size): %s vs %s" % (rows[:4], exp[:4]))
                             if [n.split(" -> ")[0].rstrip("/@") if classify else n.split(" -> ")[0] for _, _, n in rows] != [hide(bytes.fromhex(o["name"]).decode()) for o in visible]:
                                 msgs.append("table list names differ from the library's")
+                            # C18 (Props/C18_list.v): the compressed-size column is Metadata::compressed_size of the entry
+                            # the row stands for = the sum of its data chunk payloads (dump's csize)
+                            cs = table_csizes(r["out"])
+                            if cs is not None and cs != [str(o["csize"]) for o in visible]:
+                                msgs.append("table list: compressed-size column %s differs from the library's compressed sizes %s" % (cs[:6], [o["csize"] for o in visible][:6]))
                     else:
                         rows = parse_tree(r["out"]) if r["out"] else []
                         if rows is None:
